@@ -428,6 +428,20 @@ R.add('L2.4', l24, [dict(count=1), dict(count=2)],
               'only the single client hello starts a key exchange'],
       bounds='1 or 2 inner messages; 7 packet types; protocol version, token, sequence numbers, ack fields symbolic; junk <= 3 bytes')
 
+# ------------------------------------------------------------------ L2.6 after the handshake a clear-text hello is not processed again
+# "both ends hold the same key and token" must stay true: a client that already holds the session key does not run the hello
+# handler on an unencrypted SERVER_HELLO-typed datagram (a genuine hello replayed from another session would re-key it).
+# Same harness as C01 L1.1, instance (client endpoint, header type SERVER_HELLO).
+from . import c01 as _c01  # noqa: E402
+
+R.add('L2.6', _c01.l11, [dict(kind='client', tname='SERVER_HELLO', maxcount=2)],
+      desc='client that holds a session key vs a clear-text SERVER_HELLO-typed datagram (free header, arbitrary body, valid CRC): not '
+           'accepted, key / token / status unchanged - a hello is processed once per connection',
+      expect=['a datagram not produced with the session key is not accepted',
+              'a forged datagram leaves key, status, liveness clock, windows, queues and pending sends untouched'],
+      bounds='as C01 L1.1 for this instance')
+R.lemmas['L2.6'].replay = generic_replay(_c01.l11, [proto, _c01])
+
 import sys as _sys  # noqa: E402
 for _l in R.lemmas.values():
     if _l.replay is None:
